@@ -76,8 +76,35 @@ func (h *hasher) str(s string) {
 
 func skipType(t reflect.Type) bool {
 	p := t.PkgPath()
-	return p == "sync" || p == "sync/atomic" || strings.HasPrefix(p, "internal/")
+	if p == "sync" || p == "sync/atomic" || strings.HasPrefix(p, "internal/") {
+		return true
+	}
+	// a struct type defined outside the library that carries a sync primitive of its own
+	// (strings.Replacer, a third-party client, ...) synchronises its internal state itself;
+	// that state is not the library's and is not observed
+	if p != "" && t.Kind() == reflect.Struct && !OwnedPackages[p] && len(OwnedPackages) > 0 {
+		if v, ok := foreignSync[t]; ok {
+			return v
+		}
+		has := false
+		for i := 0; i < t.NumField(); i++ {
+			ft := t.Field(i).Type
+			for ft.Kind() == reflect.Ptr {
+				ft = ft.Elem()
+			}
+			if fp := ft.PkgPath(); fp == "sync" || fp == "sync/atomic" {
+				has = true
+			}
+		}
+		foreignSync[t] = has
+		return has
+	}
+	return false
 }
+
+// OwnedPackages: import paths of the instrumented (library) packages.
+var OwnedPackages = map[string]bool{}
+var foreignSync = map[reflect.Type]bool{}
 
 func (h *hasher) value(v reflect.Value, depth int) {
 	if !v.IsValid() {
